@@ -5,7 +5,9 @@ use vstd::prelude::*;
 use vstd::string::*;
 verus! {
 #[verifier::external_body] pub struct LocaleRest { _o: u8 }
-#[verifier::external_body] pub struct Language { _o: u8 }
+#[verifier::external_body] pub struct LanguageRest { _o: u8 }
+//@type base/src/language/mod.rs Booleans
+pub struct Language { pub booleans: Booleans, pub rest: LanguageRest }                 // context shell (D5)
 //@type base/src/locale/mod.rs NumbersSymbols
 pub struct NumbersProperties { pub symbols: NumbersSymbols, pub rest: LocaleRest }     // context shell (D5)
 pub struct Locale { pub numbers: NumbersProperties, pub rest: LocaleRest }             // context shell (D5)
@@ -16,7 +18,8 @@ pub struct Locale { pub numbers: NumbersProperties, pub rest: LocaleRest }      
 //@type base/src/expressions/token.rs TableSpecifier
 //@type base/src/expressions/token.rs TableReference
 pub enum TokenType {                                                                   // context shell (D5): the variants the extracted text names
-    Illegal(LexerError), EOF, Ident(String), LeftBracket, RightBracket, Comma, Other,
+    Illegal(LexerError), EOF, Ident(String), LeftBracket, RightBracket, Comma, Other, Boolean(bool),
+    FromRange,          // what only the consume_range stub answers
     StructuredReference { table_name: String, specifier: Option<TableSpecifier>, table_reference: Option<TableReference> },
 }
 impl TokenType {
@@ -39,6 +42,7 @@ pub fn shim_to_string(s: &str) -> (r: String) ensures r@ == s@ { s.to_string() }
 //@type base/src/expressions/types.rs ParsedReference
 //@type base/src/expressions/types.rs ParsedRange
 pub uninterp spec fn unicode_alphabetic(c: char) -> bool;
+pub assume_specification [str::to_uppercase] (s: &str) -> (r: String);
 pub assume_specification [<char>::is_alphanumeric] (c: char) -> (r: bool);
 pub assume_specification [<char>::is_alphabetic] (c: char) -> (r: bool) ensures r == unicode_alphabetic(c);
 pub assume_specification [<char>::is_ascii_alphabetic] (c: &char) -> (r: bool);      // ASCII only: unrelated to unicode_alphabetic
@@ -62,7 +66,7 @@ impl VerifAsciiLen for str {
 impl<'a> Lexer<'a> {
     pub open spec fn wf(&self) -> bool { self.len == self.chars@.len() && self.position <= self.len }
     #[verifier::external_body]
-    fn consume_range(&mut self, sheet: Option<String>) -> (r: TokenType) requires old(self).wf() ensures final(self).wf() { unimplemented!() }
+    fn consume_range(&mut self, sheet: Option<String>) -> (r: TokenType) requires old(self).wf() ensures final(self).wf(), r is FromRange { unimplemented!() }
 //@fn base/src/expressions/lexer/mod.rs Lexer::set_error
 //@spec
     requires old(self).wf()
@@ -111,7 +115,8 @@ pub fn scan_row_or_column_range(&mut self, position0: usize) -> (r: core::result
 //@fn base/src/expressions/lexer/mod.rs Lexer::peek_char
 //@spec
     requires old(self).wf()
-    ensures final(self).wf(), *final(self) == *old(self), r is Some ==> old(self).position < old(self).len
+    ensures final(self).wf(), *final(self) == *old(self), r is Some ==> old(self).position < old(self).len,
+        r == (if old(self).position < old(self).len { Some(old(self).chars@[old(self).position as int]) } else { None::<char> })
 //@rewrite `-> Option<char> {` => `-> (r: Option<char>) {`
 //@end
 //@fn base/src/expressions/lexer/mod.rs Lexer::read_next_char
@@ -184,6 +189,17 @@ pub fn identifier_start(&mut self, char: char)
 {
 //@fragment base/src/expressions/lexer/mod.rs Lexer::next_token `if char.is_a` ..< `let name = self.consume_identifier();`
 //@end
+}
+/// after an identifier was read: a name followed by '!' is a SHEET name — also when it spells a boolean of the language (a sheet called TRUE, C22 / C17) —
+/// and only otherwise can it be a boolean.  The piece of next_token between consume_identifier and the boolean test, verbatim.
+pub fn after_identifier(&mut self, name: String, position: usize) -> (r: TokenType)
+    requires old(self).wf(), 1 <= position <= old(self).len
+    ensures final(self).wf(),
+        old(self).position < old(self).len && old(self).chars@[old(self).position as int] == '!' ==> r is FromRange,
+{
+//@fragment base/src/expressions/lexer/mod.rs Lexer::next_token `let position_indent = self.position;` ..< `if self.mode == LexerMode::A1 {`
+//@end
+    TokenType::Other
 }
 //@fn base/src/expressions/lexer/mod.rs Lexer::consume_absolute_reference
 //@spec
